@@ -2,6 +2,8 @@
   C02 — Constructors denote exactly the angle and vector they are given.
 -/
 import GeonumModel.Lemmas.AngleNewTotal
+import GeonumModel.Lemmas.RawTotal
+import GeonumModel.Lemmas.FloatNewNeg
 import GeonumModel.Spec.RealWitness
 import GeonumModel.Lemmas.Exact
 import GeonumModel.Lemmas.ExactAdd
@@ -85,176 +87,37 @@ theorem scalar_spec {v : F} (hv : Fin v) :
     `2⁻¹⁰⁷⁵/|d|`, unbounded as `d → 0` — the digits a subnormal product loses. -/
 theorem raw_total_accuracy {p d : F} (hp : Fin p) (hd : Fin d) (hpb : |val p| ≤ 10 ^ 200)
     (hdl : 1 / 10 ^ 200 ≤ |val d|) (hq : |val p * piV F / val d| ≤ 2 ^ 42) :
-    |val (newRawTotal p d) - val p * piV F / val d| ≤ |val p * piV F / val d| * (8 / 2 ^ 53) + 1 / 2 ^ 1070 := by
-  have hpi3 := piV_gt3 (F := F); have hpi4 := piV_lt4 (F := F)
-  have hdpos : 0 < |val d| := lt_of_lt_of_le (by positivity) hdl
-  have hd0 : val d ≠ 0 := abs_pos.mp hdpos
-  obtain ⟨hf1, hv1, hx1d⟩ := scaled_spec hp hd hpb hdl hq
-  have he1 := rnd_err (F := F) (val p * piV F)
-  rw [← hv1] at he1
-  -- the tiny constants and their relations; their values are then forgotten
-  have htN : (1:ℝ) / 2 ^ 1075 * 2 ^ 53 = 1 / 2 ^ 1022 := by
-    rw [show (1075:ℕ) = 1022 + 53 by norm_num, pow_add]; field_simp
-  have ht32 : (1:ℝ) / 2 ^ 1075 * 32 = 1 / 2 ^ 1070 := by
-    rw [show (1075:ℕ) = 1070 + 5 by norm_num, pow_add]; field_simp; norm_num
-  have ht0 : (0:ℝ) < 1 / 2 ^ 1075 := by positivity
-  have h53 : (0:ℝ) < 2 ^ 53 := by positivity
-  obtain ⟨x1, hx1⟩ : ∃ x, x = val (fmul p (FloatLike.pi : F)) := ⟨_, rfl⟩
-  obtain ⟨A, hA⟩ : ∃ A, A = |val p * piV F| := ⟨_, rfl⟩
-  obtain ⟨D, hD⟩ : ∃ D, D = |val d| := ⟨_, rfl⟩
-  have hA0 : 0 ≤ A := by rw [hA]; exact abs_nonneg _
-  have hQ : |val p * piV F / val d| = A / D := by rw [abs_div, hA, hD]
-  have hQ0 : 0 ≤ A / D := by rw [← hQ]; exact abs_nonneg _
-  rw [← hx1, ← hA] at he1
-  rw [← hx1] at hx1d
-  unfold newRawTotal
-  simp only
-  by_cases hnorm : FloatLike.isNormal (fmul p (FloatLike.pi : F)) = true
-  · rw [if_pos hnorm]
-    have hN := (isNormal_spec hf1).mp hnorm
-    rw [← hx1] at hN
-    obtain ⟨hf2, hv2⟩ := fdiv_spec hf1 hd hd0 (by
-      rw [← hx1]; apply inRange_of_abs_le_2p60
-      have : (2:ℝ) ^ 42 + 2 ≤ 2 ^ 60 := by norm_num
-      linarith)
-    rw [← hx1] at hv2
-    have he2 := rnd_err (F := F) (x1 / val d)
-    rw [← hv2] at he2
-    rw [hQ]
-    generalize (1:ℝ) / 2 ^ 1022 = N at htN hN
-    generalize (1:ℝ) / 2 ^ 1070 = T at ht32 ⊢
-    generalize (1:ℝ) / 2 ^ 1075 = t at htN ht32 ht0 he1 he2
-    -- the smallest normal number bounds the product from below, so the absolute rounding term is a relative one
-    have hx1A : |x1| ≤ 2 * A + t := by
-      have h := abs_sub_abs_le_abs_sub x1 (val p * piV F)
-      rw [← hA] at h
-      have : A / 2 ^ 53 ≤ A := div_le_self hA0 (by norm_num)
-      linarith
-    have htA : t ≤ 4 * A / 2 ^ 53 := by
-      rw [le_div_iff₀ h53]
-      have : (2:ℝ) ^ 53 = 9007199254740992 := by norm_num
-      rw [this] at htN ⊢
-      linarith
-    have hs0 : |x1 - val p * piV F| ≤ 5 * A / 2 ^ 53 := by
-      have : A / 2 ^ 53 + 4 * A / 2 ^ 53 = 5 * A / 2 ^ 53 := by ring
-      linarith
-    have hs1 : |x1 / val d - val p * piV F / val d| ≤ 5 * (A / D) / 2 ^ 53 := by
-      have e : x1 / val d - val p * piV F / val d = (x1 - val p * piV F) / val d := by ring
-      rw [e, abs_div, ← hD]
-      calc |x1 - val p * piV F| / D ≤ (5 * A / 2 ^ 53) / D := div_le_div_of_nonneg_right hs0 (by rw [hD]; exact le_of_lt hdpos)
-        _ = 5 * (A / D) / 2 ^ 53 := by ring
-    have hx1q : |x1 / val d| ≤ 2 * (A / D) := by
-      have h := abs_sub_abs_le_abs_sub (x1 / val d) (val p * piV F / val d)
-      rw [hQ] at h
-      have : 5 * (A / D) / 2 ^ 53 ≤ A / D := by
-        rw [div_le_iff₀ h53]; nlinarith [show (5:ℝ) ≤ 2 ^ 53 by norm_num]
-      linarith
-    have hx1q' : |x1 / val d| / 2 ^ 53 ≤ 2 * (A / D) / 2 ^ 53 := div_le_div_of_nonneg_right hx1q (le_of_lt h53)
-    have hfin := abs_sub_le (val (fdiv (fmul p (FloatLike.pi : F)) d)) (x1 / val d) (val p * piV F / val d)
-    have hT : t ≤ T := by rw [← ht32]; linarith
-    have e8 : A / D * (8 / 2 ^ 53) = 8 * (A / D) / 2 ^ 53 := by ring
-    have e7 : 2 * (A / D) / 2 ^ 53 + 5 * (A / D) / 2 ^ 53 ≤ 8 * (A / D) / 2 ^ 53 := by
-      have : 2 * (A / D) / 2 ^ 53 + 5 * (A / D) / 2 ^ 53 = 7 * (A / D) / 2 ^ 53 := by ring
-      rw [this]; apply div_le_div_of_nonneg_right _ (le_of_lt h53); linarith
-    rw [e8]
-    linarith
-  · rw [if_neg hnorm]
-    -- tiny product: divide first, scale last; two roundings, each with an absolute term of at most `t`
-    have hpabs : |val p| ≤ 1 / 10 ^ 300 := by
-      have hnn : ¬ ((1:ℝ) / 2 ^ 1022 ≤ |x1|) := fun h => hnorm ((isNormal_spec hf1).mpr (by rw [← hx1]; exact h))
-      push Not at hnn
-      have h1022 : 4 * ((1:ℝ) / 2 ^ 1022) ≤ 1 / 10 ^ 300 := by
-        have e : 4 * ((1:ℝ) / 2 ^ 1022) = 1 / 2 ^ 1020 := by
-          rw [show (1022:ℕ) = 2 + 1020 by norm_num, pow_add]; field_simp; norm_num
-        rw [e]
-        apply one_div_le_one_div_of_le (by positivity)
-        calc (10:ℝ) ^ 300 = (10 ^ 3) ^ 100 := by rw [← pow_mul]
-          _ ≤ (2 ^ 10) ^ 100 := by gcongr; norm_num
-          _ = 2 ^ 1000 := by rw [← pow_mul]
-          _ ≤ 2 ^ 1020 := pow_le_pow_right₀ (by norm_num) (by norm_num)
-      have htiny : (1:ℝ) / 2 ^ 1075 ≤ 1 / 2 ^ 1022 :=
-        one_div_le_one_div_of_le (by positivity) (pow_le_pow_right₀ (by norm_num) (by norm_num))
-      generalize (1:ℝ) / 2 ^ 1022 = u at hnn htiny h1022
-      generalize (1:ℝ) / 2 ^ 1075 = t at he1 htiny
-      have hpp : A ≤ 4 * u := by
-        have h1 := abs_sub_abs_le_abs_sub (val p * piV F) x1
-        rw [abs_sub_comm, ← hA] at h1
-        have h2 : A / 2 ^ 53 ≤ A / 2 := by
-          apply div_le_div_of_nonneg_left hA0 (by norm_num) (by norm_num)
-        linarith
-      rw [hA, abs_mul, abs_of_pos (by linarith : (0:ℝ) < piV F)] at hpp
-      nlinarith [abs_nonneg (val p)]
-    have hpd : |val p / val d| ≤ 1 := by
-      rw [abs_div, div_le_one hdpos]
-      have : (1:ℝ) / 10 ^ 300 ≤ 1 / 10 ^ 200 :=
-        one_div_le_one_div_of_le (by positivity) (pow_le_pow_right₀ (by norm_num) (by norm_num))
-      generalize (1:ℝ) / 10 ^ 300 = a at this hpabs
-      generalize (1:ℝ) / 10 ^ 200 = b at this hdl
-      linarith
-    obtain ⟨hf3, hv3⟩ := fdiv_spec hp hd hd0 (by apply inRange_of_abs_le_1000; linarith)
-    have he3 := rnd_err (F := F) (val p / val d)
-    rw [← hv3] at he3
-    obtain ⟨y, hy⟩ : ∃ y, y = val (fdiv p d) := ⟨_, rfl⟩
-    rw [← hy] at he3 hv3
-    have hy3 : |y| ≤ 3 := by
-      have h := abs_sub_abs_le_abs_sub y (val p / val d)
-      have h53' : |val p / val d| / 2 ^ 53 ≤ 1 := by
-        rw [div_le_one (by positivity)]; linarith [show (1:ℝ) ≤ 2 ^ 53 by norm_num]
-      have : (1:ℝ) / 2 ^ 1075 ≤ 1 := by rw [div_le_one (by positivity)]; exact one_le_pow₀ (by norm_num)
-      linarith
-    obtain ⟨hf4, hv4⟩ := fmul_spec hf3 (fin_pi (F := F)) (by
-      rw [val_pi, ← hy]; apply inRange_of_abs_le_1000
-      rw [abs_mul, abs_of_pos (by linarith : (0:ℝ) < piV F)]
-      nlinarith [abs_nonneg y])
-    rw [val_pi, ← hy] at hv4
-    have he4 := rnd_err (F := F) (y * piV F)
-    rw [← hv4] at he4
-    -- q = (p/d)·π
-    have hqe : val p * piV F / val d = val p / val d * piV F := by ring
-    have hQe : A / D = |val p / val d| * piV F := by
-      rw [← hQ, hqe, abs_mul, abs_of_pos (by linarith : (0:ℝ) < piV F)]
-    rw [hQ, hqe]
-    generalize (1:ℝ) / 2 ^ 1070 = T at ht32 ⊢
-    generalize (1:ℝ) / 2 ^ 1075 = t at ht32 ht0 he3 he4 htN
-    obtain ⟨r, hr⟩ : ∃ r, r = |val p / val d| := ⟨_, rfl⟩
-    rw [← hr] at he3 hQe
-    have hr0 : 0 ≤ r := by rw [hr]; exact abs_nonneg _
-    -- |yπ − (p/d)π| ≤ π(r/2^53 + t)
-    have h1 : |y * piV F - val p / val d * piV F| ≤ piV F * (r / 2 ^ 53 + t) := by
-      rw [← sub_mul, abs_mul, abs_of_pos (by linarith : (0:ℝ) < piV F), mul_comm]
-      exact mul_le_mul_of_nonneg_left he3 (by linarith)
-    -- |yπ| ≤ π(r + r/2^53 + t)
-    have h2 : |y * piV F| ≤ piV F * (r + r / 2 ^ 53 + t) := by
-      rw [abs_mul, abs_of_pos (by linarith : (0:ℝ) < piV F), mul_comm]
-      apply mul_le_mul_of_nonneg_left _ (by linarith)
-      have h := abs_sub_abs_le_abs_sub y (val p / val d)
-      rw [← hr] at h; linarith
-    have h2' : |y * piV F| / 2 ^ 53 ≤ piV F * (r + r / 2 ^ 53 + t) / 2 ^ 53 := div_le_div_of_nonneg_right h2 (le_of_lt h53)
-    have hfin := abs_sub_le (val (fmul (fdiv p d) (FloatLike.pi : F))) (y * piV F) (val p / val d * piV F)
-    have hrr : r / 2 ^ 53 ≤ r := div_le_self hr0 (by norm_num)
-    have e8 : A / D * (8 / 2 ^ 53) = 8 * (piV F * r) / 2 ^ 53 := by rw [hQe]; ring
-    rw [e8]
-    -- collect: π(r + r/2^53 + t)/2^53 + t + π(r/2^53 + t) ≤ 8πr/2^53 + 32t
-    have hπr : 0 ≤ piV F * r := mul_nonneg (by linarith) hr0
-    have c1 : piV F * (r + r / 2 ^ 53 + t) / 2 ^ 53 ≤ 2 * (piV F * r) / 2 ^ 53 + 4 * t := by
-      have e : piV F * (r + r / 2 ^ 53 + t) / 2 ^ 53 = (piV F * r) / 2 ^ 53 + (piV F * r) / 2 ^ 53 / 2 ^ 53 + piV F * t / 2 ^ 53 := by ring
-      rw [e]
-      have a1 : (piV F * r) / 2 ^ 53 / 2 ^ 53 ≤ (piV F * r) / 2 ^ 53 := div_le_self (div_nonneg hπr (le_of_lt h53)) (by norm_num)
-      have a2 : piV F * t / 2 ^ 53 ≤ 4 * t := by
-        rw [div_le_iff₀ h53]; nlinarith [show (1:ℝ) ≤ 2 ^ 53 by norm_num]
-      have a3 : 2 * (piV F * r) / 2 ^ 53 = (piV F * r) / 2 ^ 53 + (piV F * r) / 2 ^ 53 := by ring
-      linarith
-    have c2 : piV F * (r / 2 ^ 53 + t) ≤ (piV F * r) / 2 ^ 53 + 4 * t := by
-      have e : piV F * (r / 2 ^ 53 + t) = (piV F * r) / 2 ^ 53 + piV F * t := by ring
-      have : piV F * t ≤ 4 * t := mul_le_mul_of_nonneg_right (le_of_lt hpi4) (le_of_lt ht0)
-      rw [e]; linarith
-    have c3 : 2 * (piV F * r) / 2 ^ 53 + (piV F * r) / 2 ^ 53 ≤ 8 * (piV F * r) / 2 ^ 53 := by
-      have : 2 * (piV F * r) / 2 ^ 53 + (piV F * r) / 2 ^ 53 = 3 * (piV F * r) / 2 ^ 53 := by ring
-      rw [this]
-      have h38 : 3 * (piV F * r) ≤ 8 * (piV F * r) := by linarith
-      exact div_le_div_of_nonneg_right h38 (le_of_lt h53)
-    have hT : 9 * t ≤ T := by rw [← ht32]; linarith
-    linarith
+    |val (newRawTotal p d) - val p * piV F / val d| ≤ |val p * piV F / val d| * (8 / 2 ^ 53) + 1 / 2 ^ 1070 :=
+  Angle.rawTotal_accuracy hp hd hpb hdl hq
+
+/-- (B) **main clause in rounded arithmetic, `p ≥ 0`, `d > 0`, either path**: the result is canonical and its float total
+    `Tq = blade·(π_f/2) + rem` is `p·π_f/d` to within the `1e-10` snap plus `8·2⁻⁵³` relative (`+ 2⁻¹⁰⁷⁰`).  (`π_f` is the binary64
+    constant; it differs from π by less than `2e-16`, i.e. by less than one more ulp of the total.) -/
+theorem new_total_float {p d : F} (hp : Fin p) (hd : Fin d) (hpb : |val p| ≤ 10 ^ 200)
+    (hdl : 1 / 10 ^ 200 ≤ |val d|) (hq : |val p * piV F / val d| ≤ 2 ^ 42) (hp0 : 0 ≤ val p) (hd0 : 0 < val d) :
+    (Angle.new p d).Inv ∧
+    |Angle.Tq (Angle.new p d) - val p * piV F / val d| < val (e10 : F) + val p * piV F / val d * (8 / 2 ^ 53) + 1 / 2 ^ 1070 :=
+  Angle.new_total_float hp hd hpb hdl hq hp0 hd0
+
+/-- (B) **the blade count is `⌊2p/d⌋` in rounded arithmetic** whenever `p·π_f/d` is clear of the two ends of its quarter turn by
+    the margin `1e-10 + (p·π_f/d)·8·2⁻⁵³ + 2⁻¹⁰⁷⁰`: "exactly floor(2p/d) quarter turns, to within the boundary tolerance plus a few
+    ulps of the total".  Inside the margin the neighbouring count with the matching remainder is returned (`new_total_float`). -/
+theorem new_blade_float {p d : F} (hp : Fin p) (hd : Fin d) (hpb : |val p| ≤ 10 ^ 200)
+    (hdl : 1 / 10 ^ 200 ≤ |val d|) (hq : |val p * piV F / val d| ≤ 2 ^ 42) (hp0 : 0 ≤ val p) (hd0 : 0 < val d) (n : ℕ)
+    (hlo : (n : ℝ) * val (qp : F) + (val (e10 : F) + val p * piV F / val d * (8 / 2 ^ 53) + 1 / 2 ^ 1070) ≤ val p * piV F / val d)
+    (hhi : val p * piV F / val d + (val (e10 : F) + val p * piV F / val d * (8 / 2 ^ 53) + 1 / 2 ^ 1070) ≤ ((n : ℝ) + 1) * val (qp : F)) :
+    (Angle.new p d).blade = n :=
+  Angle.new_blade_float hp hd hpb hdl hq hp0 hd0 n hlo hhi
+
+/-- (B) **negative radians in rounded arithmetic** (`Angle::new(x, PI)`, `-2^41 ≤ x < 0`, the form every internal re-encoding
+    uses): the result is canonical and its float total is `x` plus a whole number `n` of turns, to within the snap plus
+    `(14·|x| + 46)·2⁻⁵³` — the same direction modulo `2π_f`, as a forward rotation.  PARTIAL w.r.t. the property's "any divisor":
+    for a general negative `p/d` the forward-rotation law is proved in exact arithmetic (`negative_forward_real`). -/
+theorem new_radians_negative_float_partial {x : F} (hx : Fin x) (hx0 : val x < 0) (hb : -(2 ^ 41) ≤ val x) :
+    (Angle.new x (FloatLike.pi : F)).Inv ∧
+    ∃ n : ℕ, |Angle.Tq (Angle.new x (FloatLike.pi : F)) - (val x + (n : ℝ) * (4 * val (qp : F)))|
+      < val (e10 : F) + (14 * |val x| + 46) * (1 / 2 ^ 53) + 1 / 10 ^ 300 :=
+  Angle.new_radians_total_neg hx hx0 hb
 
 end S
 
